@@ -10,6 +10,7 @@ import math
 import numpy as np
 
 from harness import common as C
+from harness import orthreg_hist as HST
 
 ANCHORS = {"src/skmatter/linear_model/_base.py": [
     "OrthogonalRegression.fit", "OrthogonalRegression.predict"]}
@@ -67,7 +68,7 @@ def gen_case(rng, quick):
         Y = X @ _randn(rng, p, t) + 0.5 * _randn(rng, n, t)
     scale = rng.choice([1.0, 1.0, 1e-3, 1e3])
     Y = Y * scale
-    case = dict(family=fam, X=X.tolist(), Y=Y.tolist(), Q=Q.tolist(), projector=projector,
+    case = dict(family=fam, scale=scale, X=X.tolist(), Y=Y.tolist(), Q=Q.tolist(), projector=projector,
                 y1d=(t == 1 and projector and rng.random() < 0.5),   # padded mode needs 2-D y (y.shape[1])
                 estimator=(rng.choice(ESTIMATORS) if projector else "default"),
                 Xnew=_randn(rng, 3, p).tolist(),
@@ -128,7 +129,7 @@ def prepare(case, rec):
         info["gfull"] = bool(w[-1] > GAP * w[0]) if w[0] > 0 else False
         info["gblock"] = bool(w[r - 1] > GAP * w[0]) if w[0] > 0 else False
         comps = [_orth(prng, q) for _ in range(3)]
-        if "coef" in rec:
+        if "coef" in rec and np.shape(rec["coef"]) == (q, q):     # (a wrongly shaped coef_ is reported by the comparison)
             Ri = np.array(rec["coef"]).T
             comps += [Ri @ _small_rotation(prng, q, e) for e in (1e-3, 3e-2)] if q >= 2 else []
             comps.append(Ri @ np.diag([-1.0] + [1.0] * (q - 1)))
@@ -147,8 +148,10 @@ def prepare(case, rec):
         r = len(sc)
         info.update(C=Cm, hint_c=(U, sc, Vt.T.copy()), hint_i=(u, w, vt.T.copy()), sig=w, sig_c=sc, r=r)
         info["gcoef"] = bool(sc[0] > 0 and sc[-1] > GAP * sc[0] and w[0] > 0 and w[-1] > GAP * w[0])
+        # the reduced spaces (ranges of Uc, Vc) are determined by the linear fit iff its coefficients have full rank
+        info["grange"] = bool(sc[0] > 0 and sc[-1] > GAP * sc[0])
         comps = [_orth(prng, r) for _ in range(3)]
-        if "coef" in rec:
+        if "coef" in rec and np.shape(rec["coef"]) == (Cm.shape[1], p):
             R0 = U.T @ np.array(rec["coef"]).T @ Vt.T
             if r >= 2:
                 comps += [R0 @ _small_rotation(prng, r, e) for e in (1e-3, 3e-2)]
@@ -176,16 +179,21 @@ def case_coq(case, rec, info):
             C.fmat(case["X"]), C.fmat(case["Y"]), C.fmat(case["Xnew"]), _svdh(info["hint"]), comps,
             rec["max_components"], C.fmat(rec["coef"]), C.fmat(rec["pred"]), C.fl(RTOL), C.fl(atol_of(case)),
             "true" if info["gfull"] else "false", "true" if info["gblock"] else "false")
-    return "proj_case_ok %s %s %s %s %s %s %s %s %s %s %s %s" % (
-        C.fmat(case["X"]), C.fmat(case["Y"]), C.fmat(case["Xnew"]), C.fmat(info["C"].tolist()),
-        _svdh(info["hint_c"]), _svdh(info["hint_i"]), comps, C.fmat(rec["coef"]), C.fmat(rec["pred"]),
-        C.fl(RTOL), C.fl(atol_of(case)), "true" if info["gcoef"] else "false")
+    ols = {"lr_nointercept": 1, "default": 2}.get(case["estimator"], 0)
+    return ("(let X := %s in let Y := %s in let Cl := %s in let hc := %s in let oc := %s in "
+            "proj_case_ok X Y %s Cl hc %s %s oc %s %s %s %s ++ proj_ext_ok X Y Cl hc oc %s %d%%nat)") % (
+        C.fmat(case["X"]), C.fmat(case["Y"]), C.fmat(info["C"].tolist()), _svdh(info["hint_c"]), C.fmat(rec["coef"]),
+        C.fmat(case["Xnew"]), _svdh(info["hint_i"]), comps, C.fmat(rec["pred"]),
+        C.fl(RTOL), C.fl(atol_of(case)), "true" if info["gcoef"] else "false",
+        "true" if info["grange"] else "false", ols)
 
 
 PAD_COMPONENTS = ["svd-hint hypotheses", "max_components_", "coef_", "coef_[:t,:p]", "optimal residual value",
                   "coef_ orthogonal", "competitor beats the fit", "predict", "predict = pad(X) coef_^T"]
 PROJ_COMPONENTS = ["svd-hint hypotheses", "coef_", "partial isometry", "prediction norm", "competitor beats the fit",
-                   "predict", "predict = X coef_^T"]
+                   "predict", "predict = X coef_^T",
+                   "W W^T = Uc Uc^T and W^T W = Vc Vc^T (range of the linear fit)",
+                   "normal equations of the linear estimator (hypothesis of C18_projector_recovers_least_squares)"]
 
 
 # ----------------------------------------------------------------------------- property oracle (search only)
@@ -202,7 +210,7 @@ def oracle(case, rec, info=None):
     Xn = np.array(case["Xnew"], dtype=float)
     pred = np.array(rec["pred"], dtype=float)
     sc = float(np.sum(X * X) + np.sum(Y * Y))
-    exact = case["family"] == "rotation"
+    exact = case["family"] == "rotation" and case.get("scale") == 1.0    # y = pad(X) Q[:, :t] exactly
     if not case["projector"]:
         q = max(p, t)
         if rec.get("max_components") != q or list(coef.shape) != [q, q]:
@@ -232,12 +240,22 @@ def oracle(case, rec, info=None):
     if np.any(np.sum(pred * pred, axis=1) > np.sum(Xn * Xn, axis=1) * (1 + 1e-9) + 1e-300):
         return "a prediction is longer than its input"
     U, s_c, V = info["hint_c"]
+    if info.get("grange"):
+        # "a partial isometry ON THE RANGE OF THE UNDERLYING LINEAR FIT": W W^T, W^T W are the orthogonal
+        # projectors onto the column / row space of the coefficients of the linear estimator fitted on THIS X, y
+        dl = float(np.max(np.abs(W @ W.T - U @ U.T)))
+        dr = float(np.max(np.abs(W.T @ W - V @ V.T)))
+        if max(dl, dr) > 1e-7:
+            return ("coef_ is not a partial isometry on the range of the linear fit of this X, y: "
+                    "max|W W^T - Uc Uc^T| = %.3g, max|W^T W - Vc Vc^T| = %.3g" % (dl, dr))
     res = float(np.sum((Y - X @ W) ** 2))
     for Om in info["comps"]:
         ro = float(np.sum((Y - X @ U @ Om @ V.T) ** 2))
         if ro < res - 1e-7 * (sc + abs(res)):
             return "a rotation between the reduced spaces has a smaller training residual: %.12g < %.12g" % (ro, res)
-    if exact and case["estimator"] == "lr_nointercept" and np.linalg.matrix_rank(X) == p and n > p:
+    if exact and ((case["estimator"] == "lr_nointercept" and np.linalg.matrix_rank(X) == p and n > p)
+                  or (case["estimator"] == "default" and n > p + 1
+                      and np.linalg.matrix_rank(X - X.mean(axis=0)) == p)):
         q = max(p, t)
         Qp = np.array(case["Q"])[:p, :t]
         if res > 1e-12 * sc:
@@ -249,20 +267,77 @@ def oracle(case, rec, info=None):
     return None
 
 
+# ----------------------------------------------------------------------------- histories
+def history_oracle(hist, obs, cl):
+    """C18 on every accepted fit of the history, whatever happened before it; None or (call, message)."""
+    for k, (a, ob) in enumerate(zip(hist["ops"], obs)):
+        if a["op"] != "fit" or hist["data"][a["d"]]["bad"] is not None:
+            continue
+        if ob["res"] != "ok":
+            d = hist["data"][a["d"]]
+            par = cl[k][2][a["o"]]
+            if d["y1d"] and not par["projector"]:
+                continue                      # 1-D y in padded mode: IndexError (recorded observation, not C18)
+            return k, "call %d: fit on valid data raised %s: %s" % (k, ob.get("error"), ob.get("error_msg"))
+        case = HST.step_case(hist, k, cl)
+        msg = oracle(case, ob["fitrec"])
+        if msg:
+            return k, "call %d (fit #%d of this history, %s mode, estimator %s): %s" % (
+                k, sum(1 for b in hist["ops"][:k + 1] if b["op"] == "fit"),
+                "projector" if case["projector"] else "padded", case["estimator"], msg)
+    return None
+
+
+def hist_stats(stats, hist, obs, cl):
+    hs = stats["history"]
+    hs["histories"] += 1
+    hs["shared_estimator"] += len(hist["objs"]) == 2 and hist["objs"][0]["est"] is not None \
+        and hist["objs"][0]["est"] == hist["objs"][1]["est"]
+    nfit = [0] * len(hist["objs"])
+    last = [None] * len(hist["objs"])
+    for k, (a, ob) in enumerate(zip(hist["ops"], obs)):
+        hs["ops"][a["op"]] = hs["ops"].get(a["op"], 0) + 1
+        key = a["op"] + ":" + (ob["res"] if ob["res"] == "ok" else ob["error"])
+        hs["outcomes"][key] = hs["outcomes"].get(key, 0) + 1
+        if a["op"] == "fit" and ob["res"] == "ok":
+            o = a["o"]
+            b, hy, d = cl[k][0][o]
+            par = cl[k][2][o]
+            if nfit[o] >= 1:
+                hs["refits"] += 1
+                pb, phy, pd = last[o]
+                hs["refit_mode_changed"] += pb != b
+                hs["refit_estimator_changed"] += phy != hy
+                sh = lambda i: (len(hist["data"][i]["X"][0]), len(hist["data"][i]["Y"][0]))  # noqa
+                hs["refit_other_shape"] += sh(pd) != sh(d)
+                hs["refit_same_shape_rectangular"] += sh(pd) == sh(d) and sh(d)[0] != sh(d)[1]
+            if b and par["est"] is not None and obs[k - 1]["ests"][par["est"]]["coef"] is not None if k else False:
+                hs["fits_with_prefitted_user_estimator"] += 1
+            nfit[o] += 1
+            last[o] = (b, hy, d)
+        if a["op"] == "fit" and ob["res"] != "ok" and nfit[a["o"]] >= 1:
+            hs["rejected_fit_on_fitted_object"] += 1
+
+
 # ----------------------------------------------------------------------------- run
 def run(ctx):
     po = C.proof_obligations(ctx.prop)
     ncases = 500 if ctx.quick else 8000
+    nhist = 220 if ctx.quick else 800
     cases, recs, infos = [], [], []
     stats = dict(families={}, modes={}, relation={}, estimators={}, y1d=0, errors=0, wide=0,
-                 exact_rotation=0, skipped=dict(coef_full=0, coef_block=0, proj_coef=0),
-                 compared=dict(coef_full=0, coef_block=0, proj_coef=0), competitors=0,
-                 hint_residual_max=0.0, rank_deficient_cross=0)
-    for _ in range(ncases):
-        c = gen_case(ctx.rng, ctx.quick)
-        r = run_impl(c)
-        info = prepare(c, r)
-        cases.append(c), recs.append(r), infos.append(info)
+                 exact_rotation=0, skipped=dict(coef_full=0, coef_block=0, proj_coef=0, proj_range=0),
+                 compared=dict(coef_full=0, coef_block=0, proj_coef=0, proj_range=0), competitors=0,
+                 normal_equations_checked=0,
+                 hint_residual_max=0.0, rank_deficient_cross=0,
+                 history=dict(histories=0, ops={}, outcomes={}, refits=0, refit_mode_changed=0,
+                              refit_estimator_changed=0, refit_other_shape=0, refit_same_shape_rectangular=0,
+                              fits_with_prefitted_user_estimator=0, shared_estimator=0,
+                              rejected_fit_on_fitted_object=0, fit_steps_compared_with_float_model=0,
+                              fresh_object_compared=0, fresh_object_skipped_ill_conditioned=0,
+                              machine_calls_compared=0))
+
+    def account(c, info, r):
         p, t = info["p"], info["t"]
         for k, v in (("families", c["family"]), ("modes", "projector" if c["projector"] else "padded"),
                      ("relation", "p<t" if p < t else "p=t" if p == t else "p>t"), ("estimators", c["estimator"])):
@@ -275,10 +350,54 @@ def run(ctx):
         stats["hint_residual_max"] = max(stats["hint_residual_max"], info["resid_hint"])
         if c["projector"]:
             stats["compared" if info["gcoef"] else "skipped"]["proj_coef"] += 1
+            stats["compared" if info["grange"] else "skipped"]["proj_range"] += 1
+            stats["normal_equations_checked"] += c["estimator"] in ("lr_nointercept", "default")
         else:
             stats["compared" if info["gfull"] else "skipped"]["coef_full"] += 1
             stats["compared" if info["gblock"] else "skipped"]["coef_block"] += 1
             stats["rank_deficient_cross"] += not info["gfull"]
+
+    for _ in range(ncases):
+        c = gen_case(ctx.rng, ctx.quick)
+        r = run_impl(c)
+        info = prepare(c, r)
+        cases.append(c), recs.append(r), infos.append(info)
+        account(c, info, r)
+    n_single = len(cases)
+
+    # ---- histories: every accepted fit becomes one more case for the float model; the calls themselves go
+    # to the state machine; arrays of objects a call does not own / fresh-object equality are checked here
+    hists, hobs, hcl, origin, hist_bad, hist_texts = [], [], [], {}, {}, {}
+    for hi in range(nhist):
+        h = HST.gen_history(ctx.rng, ctx.quick)
+        ob = HST.run_history(h, make_estimator)
+        cl = HST.claims(h, ob)
+        hists.append(h), hobs.append(ob), hcl.append(cl)
+        hist_stats(stats, h, ob, cl)
+        gates = {}
+        for k, (a, o) in enumerate(zip(h["ops"], ob)):
+            if a["op"] == "fit" and o["res"] == "ok" and h["data"][a["d"]]["bad"] is None:
+                c = HST.step_case(h, k, cl)
+                r = o["fitrec"]
+                info = prepare(c, r)
+                origin[len(cases)] = (hi, k)
+                cases.append(c), recs.append(r), infos.append(info)
+                account(c, info, r)
+                gates[k] = info["gcoef"] if c["projector"] else info["gfull"]
+                stats["history"]["fit_steps_compared_with_float_model"] += "error" not in r
+        bad, ncmp, nskip = HST.frame_and_fresh(h, ob, cl, make_estimator, gates)
+        stats["history"]["fresh_object_compared"] += ncmp
+        stats["history"]["fresh_object_skipped_ill_conditioned"] += nskip
+        for k, m in bad:
+            hist_bad.setdefault(hi, []).append(m)
+        txt = HST.coq_history(h, ob, cl)
+        if txt is None:
+            hist_bad.setdefault(hi, []).append("an outcome of the history has no counterpart in the state machine "
+                                               "(unexpected exception type or array rank)")
+        else:
+            hist_texts[hi] = txt
+            stats["history"]["machine_calls_compared"] += len(h["ops"])
+
     idx = [i for i, r in enumerate(recs) if "error" not in r]
     texts = {i: case_coq(cases[i], recs[i], infos[i]) for i in idx}
     groups, cur, cur_sz = [], [], 0
@@ -301,33 +420,66 @@ def run(ctx):
         bad["coef"] = cf
         body = ";\n ".join([texts[i] for i in gidx] + [case_coq(cases[i0], bad, infos[i0])])
         shards.append(C.SHARD_HEAD + "From Coq Require Import List PrimFloat.\nImport ListNotations.\n"
-                      "From Verif Require Import MExp Ridge2Fold OrthReg.\nOpen Scope float_scope.\n"
+                      "From Verif Require Import MExp Ridge2Fold OrthReg OrthRegExt.\nOpen Scope float_scope.\n"
+                      "Definition verdicts : list (list bool) := [\n %s].\n"
+                      "Eval vm_compute in (map (r2f_failing_from 0) verdicts).\n" % body)
+    # state-machine shards (layer D, exact): one verdict per call; self-test = first history with its first
+    # observation's outcome replaced by an IndexError
+    hkeys = sorted(hist_texts)
+    hgroups = [hkeys[i:i + 250] for i in range(0, len(hkeys), 250)]
+    for hg in hgroups:
+        t0 = hist_texts[hg[0]]
+        cut = t0.index("] [(") + 4
+        end = t0.index(",", cut)
+        wrong = t0[:cut] + ("dErr EIndex" if t0[cut:end] != "dErr EIndex" else "dOk") + t0[end:]
+        body = ";\n ".join([hist_texts[i] for i in hg] + [wrong])
+        shards.append(C.SHARD_HEAD + "From Coq Require Import List Bool.\nImport ListNotations.\n"
+                      "From Verif Require Import Ridge2Fold OrthRegHist.\n"
                       "Definition verdicts : list (list bool) := [\n %s].\n"
                       "Eval vm_compute in (map (r2f_failing_from 0) verdicts).\n" % body)
     outs = C.run_shards(ctx.prop, shards, par=1)
     mismatched, corr_broken = {}, []
-    for gidx, (rc, out) in zip(groups, outs):
+    import re
+
+    def parse(rc, out, nexp):
         flat = out.replace("\n", " ")
-        import re
         m = re.search(r"=\s*\[(.*)\]\s*:\s*list \(list nat\)", flat)
         if rc != 0 or not m:
             corr_broken.append(out[-1500:])
-            continue
+            return None
         per = [[int(x) for x in re.findall(r"\d+", grp)] for grp in re.findall(r"\[([^\[\]]*)\]", "[" + m.group(1) + "]")]
-        if len(per) != len(gidx) + 1:
-            corr_broken.append("unexpected number of verdict lists: %d for %d cases\n%s" % (len(per), len(gidx) + 1, out[-500:]))
-            continue
+        if len(per) != nexp + 1:
+            corr_broken.append("unexpected number of verdict lists: %d for %d cases\n%s" % (len(per), nexp + 1, out[-500:]))
+            return None
         if not per[-1]:
             corr_broken.append("self-test: the injected wrong observation was not flagged")
-        for k, fails in enumerate(per[:-1]):
+        return per[:-1]
+
+    for gidx, (rc, out) in zip(groups, outs[:len(groups)]):
+        per = parse(rc, out, len(gidx))
+        for k, fails in enumerate(per or []):
             if fails:
                 names = PROJ_COMPONENTS if cases[gidx[k]]["projector"] else PAD_COMPONENTS
                 mismatched[gidx[k]] = [names[j] for j in fails]
+    for hg, (rc, out) in zip(hgroups, outs[len(groups):]):
+        per = parse(rc, out, len(hg))
+        for k, fails in enumerate(per or []):
+            if fails:
+                h = hists[hg[k]]
+                hist_bad.setdefault(hg[k], []).append(
+                    "state machine Model/OrthRegHist.v disagrees at call(s) %s"
+                    % ", ".join("%d (%s)" % (j, h["ops"][j]["op"] if j < len(h["ops"]) else "?") for j in fails))
     for i, r in enumerate(recs):
         if "error" in r:
             mismatched.setdefault(i, []).append("raised")
+    for i in list(mismatched):
+        if i in origin:                                   # a fit inside a history: report with the whole history
+            hi, k = origin[i]
+            hist_bad.setdefault(hi, []).append("float model vs fit at call %d: %s" % (k, ", ".join(mismatched[i])))
     n_search, n_rep = 0, 0
     for i in sorted(mismatched):
+        if i in origin:
+            continue
         msg = oracle(cases[i], recs[i], infos[i])
         n_search += 1
         n_rep += 1
@@ -341,6 +493,22 @@ def run(ctx):
             rep["note"] = "model and implementation disagree but the direct oracle accepts the output"
             C.report_violation(ctx, "correspondence OrthogonalRegression model vs implementation broken (%s)"
                                % ", ".join(mismatched[i]), rep, found_input=False)
+    for hi in sorted(hist_bad):
+        found = history_oracle(hists[hi], hobs[hi], hcl[hi])
+        n_search += 1
+        n_rep += 1
+        if n_rep > 6:
+            continue
+        rep = dict(case=hists[hi], observed=HST.strip_obs(hobs[hi]), disagreements=hist_bad[hi][:8],
+                   correspondence="hist_ok (Model/OrthRegHist.v) + pad_case_ok / proj_case_ok per accepted fit")
+        if found:
+            rep["failing_call"] = found[0]
+            C.report_violation(ctx, "C18 fails on the implementation after a history of calls: " + found[1], rep,
+                               found_input=True)
+        else:
+            rep["note"] = "model and implementation disagree but the direct oracle accepts every fit of the history"
+            C.report_violation(ctx, "correspondence OrthogonalRegression state machine vs implementation broken (%s)"
+                               % hist_bad[hi][0], rep, found_input=False)
     for txt in corr_broken:
         C.report_violation(ctx, "correspondence shard did not evaluate", dict(coq_output=txt), found_input=False)
     if not po["ok"]:
@@ -356,6 +524,7 @@ def run(ctx):
         if h not in seen and basis_free and min(info["p"], info["t"]) >= 2 and i not in mismatched:
             nontrivial += 1
         seen.add(h)
+    stats["history"]["histories_with_disagreement"] = len(hist_bad)
     cov = dict(obligations=po["obligations"], discharged=po["discharged"], checker_cmd=po["checker_cmd"],
                theorems=po["theorems"], axioms=po["axioms"],
                trusted_base=C.TRUSTED_BASE_COMMON + [
@@ -363,13 +532,16 @@ def run(ctx):
                    "V^T V = I (square factors), A^T B = U diag(s) V^T, s >= 0; residuals re-evaluated inside Coq per case",
                    "the linear estimator of projector mode (LinearRegression / Ridge) is an oracle: its coef_ is an input",
                    "binary64 rounding: comparisons at rtol 1e-7; basis-dependent quantities are skipped when a "
-                   "singular-value gap is below 1e-6 (counted)"],
-               evaluations=len(cases), distinct_nontrivial=nontrivial,
+                   "singular-value gap is below 1e-6 (counted)",
+                   "histories: the harness mirrors only the constructor parameters it assigned itself; which "
+                   "configuration each coef_ belongs to is decided by the Coq state machine and compared with `=`"],
+               evaluations=len(cases), single_fit_cases=n_single, distinct_nontrivial=nontrivial,
                rule="distinct input with min(n_features, n_targets) >= 2 whose fitted map was compared with the model "
                     "(singular-value gaps above 1e-6) and against >= 4 competitor orthogonal maps",
                traces_validated_against_impl=len(idx) - len([i for i in mismatched if i in idx]),
                samples=[dict(case=cases[i], observed=recs[i]) for i in idx[:2]],
-               distribution=stats, anchor_drift=changed, oracle_runs=n_search, mismatches_total=len(mismatched),
+               distribution=stats, anchor_drift=changed, oracle_runs=n_search,
+               mismatches_total=len([i for i in mismatched if i not in origin]) + len(hist_bad),
                tolerances=dict(rtol=RTOL, gap=GAP, hint_eps=2.0 ** -36))
     return C.finish(ctx, "proof", cov,
                     ["theorems are over an arbitrary real closed field; binary64 rounding is covered only by the "
@@ -379,6 +551,12 @@ def run(ctx):
 
 def replay(ctx, obj):
     c = obj["case"]
+    if c.get("kind") == "history":
+        ob = HST.run_history(c, make_estimator)
+        cl = HST.claims(c, ob)
+        found = history_oracle(c, ob, cl)
+        print("replay:", found[1] if found else "property holds on every fit of this history now")
+        return 1 if found else 0
     r = run_impl(c)
     msg = oracle(c, r)
     print("replay:", msg or "property holds on this input now")
